@@ -174,8 +174,9 @@ def setup_env():
     os.environ.setdefault("MKL_NUM_THREADS", "1")
     os.environ.setdefault("TF_CPP_MIN_LOG_LEVEL", "3")
     os.environ["RL_BLOX_VERIF"] = "1"
-    if "/repo" not in sys.path:
-        sys.path.insert(0, "/repo")
+    repo = os.environ.get("VERIF_REPO", "/repo")  # a scratch worktree when trying mutants
+    if repo not in sys.path[:1]:
+        sys.path.insert(0, repo)
     if VERIF not in sys.path:
         sys.path.insert(0, VERIF)
 
